@@ -572,8 +572,44 @@ class Transformer:
                 continue
             for cs in T.callsites(f):
                 if cs.kind == "constructor" and cs.classes and cs.classes[0] in hier and isinstance(cs.node, ast.Call):
-                    if fl.is_relevant(cs.node):
+                    if fl.is_relevant(cs.node) and self._is_result(fl, cs.node):
                         yield f, cs.node, inputs
+
+    @staticmethod
+    def _is_result(fl: "FuncFlow", call) -> bool:
+        """The constructed object *is* the function's result (returned directly, as a
+        tuple element, or through one local name) -- not a new inner node."""
+        def direct(v):
+            if v is call:
+                return True
+            if isinstance(v, ast.Tuple):
+                return any(direct(e) for e in v.elts)
+            if isinstance(v, ast.IfExp):
+                return direct(v.body) or direct(v.orelse)
+            return False
+
+        names = set()
+        st = fl.enclosing_stmt(call)
+        if isinstance(st, ast.Return) and st.value is not None and direct(st.value):
+            return True
+        if isinstance(st, ast.Expr) and isinstance(st.value, ast.Yield) and st.value.value is not None and direct(st.value.value):
+            return True
+        if isinstance(st, ast.Assign) and st.value is call:
+            for t in st.targets:
+                if isinstance(t, ast.Name):
+                    names.add(t.id)
+        if not names:
+            return False
+        for s in iter_stmts(fl.f.body):
+            if isinstance(s, ast.Return) and s.value is not None:
+                v = s.value
+                elts = v.elts if isinstance(v, ast.Tuple) else [v]
+                if any(isinstance(e, ast.Name) and e.id in names for e in elts):
+                    return True
+                # return helper(new_object, ...)
+                if any(isinstance(e, ast.Call) and any(isinstance(a, ast.Name) and a.id in names for a in e.args) for e in elts):
+                    return True
+        return False
 
     def ctor_field_dependence(self, f: FuncInfo, call: ast.Call, cls: str, field: str, inputs: List[str]):
         """-> (verdict, detail).  verdict in {'data','control','whole','missing','constant','undecided'}"""
